@@ -82,6 +82,32 @@ def mode_enum(ctx):
     for stmt in noeffect:
         ctx.finding(f"{P}.U4", v.site, f"`{norm(stmt)}` is a comparison used as a statement: it has no effect "
                                        f"(an assignment was meant)", key=norm(stmt)[:40], where=loc(v, stmt))
+    # MODE-DECISION: 'byfile' survives only if every box lives in the same-named file in both inputs (per-box tables
+    # compared, not just the sets of file names); otherwise the box-by-box mode is selected
+    env = rules.local_env(v.node)
+    dec = None
+    for n in walk_no_nested(v.node):
+        if isinstance(n, ast.If) and any(isinstance(b, ast.Assign) and norm(b.targets[0]) == "output['mode']" and
+                                         isinstance(b.value, ast.Constant) and b.value.value == "bybox" for b in n.body):
+            dec = n
+    ok = False
+    got = None
+    if dec is not None:
+        t = dec.test
+        if isinstance(t, ast.UnaryOp) and isinstance(t.op, ast.Not) and isinstance(t.operand, ast.Call) and \
+                norm(t.operand.func) in ("np.array_equal", "numpy.array_equal") and len(t.operand.args) == 2:
+            ops = sorted(rules.leaf_text(a, env, None) for a in t.operand.args)
+            got = ops
+            vecs = ("np.vectorize(lambda s: os.path.split(s)[-1])", "np.vectorize(os.path.basename)",
+                    "np.vectorize(lambda s: os.path.basename(s))")
+            ok = any(ops == [f"{vc}(args[0].cells[lv]['files'])", f"{vc}(args[1].cells[lv]['files'])"] for vc in vecs)
+    ctx.check(ok, f"{P}.MODE-DECISION", v.site,
+              "the file-by-file mode is kept only when the *per-box* file-name tables of the two inputs are equal "
+              "(box i lives in the same-named file in both); otherwise box-by-box",
+              f"the decision for 'bybox' compares {got}: unless the full per-box file tables (basename of "
+              f"cells[lv]['files'] of each input, in box order) are compared, inputs that use the same set of file names "
+              f"but assign boxes to files differently are merged file-by-file and boxes of different index ranges are "
+              f"paired silently", where=loc(v, dec or v.node))
     for m, node in sorted(consumed.items()):
         ctx.check(m in produced, f"{P}.U3", c.site, f"mode '{m}' is produced by the validation",
                   f"combine() dispatches on mode '{m}', which validate_combine_input never produces (produced: "
